@@ -50,6 +50,7 @@ class VecEval:
         self.matrix_field = matrix_field
         self.diag_fields = set(diag_fields)
         self.notes = []
+        self.skip_if = set()      # ids of if-statements the caller has decided to be irrelevant (early-out for an empty system)
 
     def key(self, n):
         n = strip(n)
@@ -170,6 +171,8 @@ class VecEval:
                 if loop_hook is None:
                     raise NotStraight("loop in straight-line code")
                 loop_hook(self, s)
+            elif k == "If" and s.get("i") in self.skip_if:
+                continue
             elif k in ("If", "Switch"):
                 raise NotStraight("branch in straight-line vector code")
             elif k == "Block":
